@@ -44,8 +44,16 @@ def case_strategy(draw):
             prob = draw(gc.cone_case(kind="feas", kinds=kinds, qp=True))
     paths = draw(st.lists(st.tuples(st.sampled_from(["conelp", "wrapper"] + (["cp"] if family == "qp" else [])),
                                     st.booleans(), st.booleans()), min_size=2, max_size=2, unique=True))
-    return dict(family=family, prob=prob, paths=[list(p) for p in paths],
+    case = dict(family=family, prob=prob, paths=[list(p) for p in paths],
                 Pjunk=draw(st.sampled_from([0.0, 0.0, 5.5, -100.0])), omitG=draw(st.booleans()))
+    if family == "lp" and draw(st.integers(0, 2)) == 0:
+        # valid (strictly interior) start points are part of the documented interface of conelp and its wrappers
+        N = rc.cdim(prob["dims"])
+        case["start"] = draw(st.sampled_from(["primal", "dual", "both"]))
+        case["start_data"] = dict(su=[draw(gc.dy(-4, 4)) for _ in range(N)], zu=[draw(gc.dy(-4, 4)) for _ in range(N)],
+                                  xs=draw(st.integers(-3, 3)), ys=draw(st.integers(-3, 3)),
+                                  delta=draw(st.sampled_from([0.5, 1.0, 4.0])))
+    return case
 
 
 def wrapper_for(dims):
@@ -151,6 +159,9 @@ def oracle(case, stats=None):
         else:
             entry = wrapper_for(dims) if path == "wrapper" else "conelp"
             cfg = dict(DEF, entry=entry, spG=spG, spA=spA)
+            if case.get("start"):
+                cfg.update(start=case["start"], start_data=case["start_data"])
+                labels.append("start:" + case["start"])
             try:
                 sol = runlp.call(cfg, mat)
             except Exception as e:
